@@ -601,6 +601,76 @@ func vfC05fec(c *hx.Ctx) {
 			}
 		}
 	}
+	// stale floods: a reference id is established (by one packet, or by a run of genuine groups), then a
+	// sequence of well-formed packets follows of which each lies in a different group behind the window (every
+	// stride and start distance of the alphabet, data or parity position, with and without a fresh packet in
+	// between): occupancy is checked after every packet.
+	for _, dp := range [][2]int{{1, 1}, {2, 1}, {3, 2}, {10, 3}} {
+		size := uint32(dp[0] + dp[1])
+		paws := uint32(0xffffffff) / size * size
+		for _, newest := range []uint32{size * 1000, 1<<31 - 1<<31%size, paws - 2*size, size * 3} {
+			for _, warm := range []int{1, 12} {
+				for _, startBehind := range []uint32{maxShardSets + 1, maxShardSets + 2, 100, 1 << 20} {
+					for _, stride := range []uint32{1, 2, 7} {
+						for _, pos := range []uint32{0, size - 1} {
+							for _, fresh := range []int{0, 16} {
+								dec := newFECDecoder(dp[0], dp[1])
+								feed := func(id uint32) bool {
+									id %= paws
+									b := make([]byte, 40)
+									binary.LittleEndian.PutUint32(b, id)
+									ty := uint16(typeData)
+									if id%size >= uint32(dp[0]) {
+										ty = typeParity
+									}
+									binary.LittleEndian.PutUint16(b[4:], ty)
+									binary.LittleEndian.PutUint16(b[6:], 34)
+									b[8] = byte(id)
+									ok := true
+									func() {
+										defer func() {
+											if r := recover(); r != nil {
+												viol("C05:fec-decode-panic:"+vfPanicSiteOf(), fmt.Sprintf("fecDecoder(%d/%d).decode panicked in a stale flood at seqid=%d: %v", dp[0], dp[1], id, r))
+												ok = false
+											}
+										}()
+										for _, r := range dec.decode(fecPacket(b)) {
+											defaultBufferPool.Put(r)
+										}
+									}()
+									return ok
+								}
+								// establish the reference: the last `warm` groups before newest, all packets in order
+								for g := uint32(warm); g >= 1; g-- {
+									for i := uint32(0); i < size; i++ {
+										feed(newest + paws - g*size + i)
+									}
+								}
+								feed(newest)
+								peak, at := 0, 0
+								for k := 0; k < 64; k++ {
+									u.Executions++
+									u.NonTrivial++
+									if !feed(newest + paws - (startBehind+uint32(k)*stride)*size + pos) {
+										break
+									}
+									if fresh > 0 && k%fresh == fresh-1 {
+										feed(newest + 1 + uint32(k/fresh))
+									}
+									if len(dec.shardSet) > peak {
+										peak, at = len(dec.shardSet), k
+									}
+								}
+								if peak > maxShardSets+3 {
+									viol("C05:fec-shard-sets-unbounded:stale-flood", fmt.Sprintf("decoder(%d/%d) with newest id %d held %d shard sets after %d packets lying in distinct groups %d.. groups behind it (stride %d, position %d, fresh packet every %d)", dp[0], dp[1], newest, peak, at+1, startBehind, stride, pos, fresh))
+								}
+							}
+						}
+					}
+				}
+			}
+		}
+	}
 	u.Samples = append(u.Samples, map[string]any{"packet": "seqid=paws-1 type=0xf2 size=0xffff len=9", "decoder": "3/2"})
 	u.EndStatesN = u.Executions
 	if len(u.Violations) > 0 {
